@@ -24,7 +24,7 @@ pub fn run_linsock(ctx: &Ctx) -> i32 {
     let mut ev0 = Evidence::new(ctx, "exploration", RULE_LINSOCK);
     ev0.assumptions = vec!["histories recorded at the TCP client boundary; OS scheduling and the tokio runtime produce the interleavings (no forced schedules at this level)".into()];
     let shared = Mutex::new(ev0);
-    let rounds = ctx.n(1200, 20000);
+    let rounds = ctx.n(1200, 5000);
     let next = AtomicU64::new(0);
     let deadline = if ctx.budget_s > 0 { Some(Instant::now() + Duration::from_secs(ctx.budget_s)) } else { None };
     let alpha: &[A] = if matches!(ctx.prop.as_str(), "C03" | "C02") { &ALPHA_C03 } else { &ALPHA_C04 };
